@@ -34,6 +34,14 @@ proof fn shape_filter() ensures same_names(ser_filter(), de_filter()) // OBL C08
 proof fn shape_list() ensures same_names(ser_list(), de_list()) // OBL C08.shape.list
 { }
 
+// the wire form is POSITIONAL (a struct is the array of its fields): a field that may be left out shifts every later field
+pub open spec fn none_skipped(a: Seq<bool>) -> bool { forall|i: int| 0 <= i < a.len() ==> !(#[trigger] a[i]) }
+proof fn positional() ensures
+    none_skipped(ser_engine_skips()) && none_skipped(de_engine_skips()), // OBL C08.shape.engine_positional
+    none_skipped(ser_filter_skips()) && none_skipped(de_filter_skips()), // OBL C08.shape.filter_positional
+    none_skipped(ser_list_skips()) && none_skipped(de_list_skips()), // OBL C08.shape.list_positional
+{ }
+
 proof fn stabilized() ensures
     all_stabilized(ser_engine()), // OBL C09.stabilizer.engine
     all_stabilized(ser_list()), // OBL C09.stabilizer.list
